@@ -89,22 +89,31 @@ def pipeline(ctx, fresh=True):
     have = {json.dumps(v["ops"]) for v in sample}
     directed = [v for v in vecs if dup_lean_async(v) and json.dumps(v["ops"]) not in have]
     sample += directed[:40 if ctx.quick else 400]
-    # legacy chains: version-1 claims A1 <- A2, then a version-2 claim that takes A2 as ingredient (through an archive round trip
-    # and / or through a Reader): the manifests reachable only over legacy ingredient assertions must be carried along
-    def chain3(v):
+    # histories with the claim version and the ingredient entry point chosen by the model (Variants = TRUE): three signings each.
+    # Preferred: legacy chains -- a version-2 manifest over a version-1 manifest that has a signed ingredient of its own, so that
+    # part of the chain is held together by a legacy ingredient assertion only
+    r2 = tlc_expect_ok(tlc("MC_Workflow", "MC_Workflow_variants.cfg", name="mc_workflow_variants", workers=8, timeout=1500), "MC Workflow (variants)")
+    ctx.add_tlc(r2)
+    x = tlc("MC_Workflow", "MC_Workflow_W_LegacyChain.cfg", name="mc_workflow_W_LegacyChain", workers=4, timeout=600, coverage=False)
+    if not (x.violated and "Invariant W_LegacyChain is violated" in x.out):
+        raise ToolError("vacuity witness W_LegacyChain not reachable")
+    var = export("MC_Workflow_variants_emit.cfg", "wf_variants_emit")
+    if len(var) < 50000:
+        raise ToolError("variant history export too small: %d" % len(var))
+    def legacy_chain(v):
         ops = v["ops"]
-        return len(ops) == 3 and all(o["op"] == "S" for o in ops) and ops[0]["ings"] in ([], [0]) and ops[1]["ings"] == [1] and 2 in ops[2]["ings"]
-    legacy = []
-    for v in vecs:
-        if chain3(v):
-            for via in (None, "reader"):
-                ops = [dict(o) for o in v["ops"]]
-                ops[0]["cv"] = 1; ops[1]["cv"] = 1; ops[2]["cv"] = 2
-                if via:
-                    ops[2]["via"] = via
-                legacy.append(dict(v, ops=ops))
-    ctx.rng.shuffle(legacy)
-    sample += legacy[:24 if ctx.quick else 240]
+        for j, o in enumerate(ops):
+            if o["cv"] == 2:
+                for a in o["ings"]:
+                    if a and ops[a - 1]["cv"] == 1 and any(ops[a - 1]["ings"]):
+                        return True
+        return False
+    ctx.rng.shuffle(var)
+    legacy = [v for v in var if legacy_chain(v)]
+    other = [v for v in var if not legacy_chain(v)]
+    if len(legacy) < 100:
+        raise ToolError("too few legacy chains in the export: %d" % len(legacy))
+    sample += legacy[:24 if ctx.quick else 300] + other[:12 if ctx.quick else 300]
     # longer histories and longer archive chains from simulation (thorough)
     if not ctx.quick:
         try:
